@@ -345,3 +345,58 @@ def observe(text: str, cz: Concretiser, incl: bool = True, extra_models=()):
     o["fails"] = False
     o["error"] = "-"
     return o, p
+
+
+# --------------------------------------------------------------------- canonical snapshot of every public query
+GLOBAL_QUERIES = ["dict_aliases", "dict_charge_conjugates", "dict_definitions", "dict_decays2copy", "dict_model_aliases",
+                  "list_charge_conjugate_decays", "get_particle_property_definitions", "dict_pythia_definitions",
+                  "dict_jetset_definitions", "dict_lineshape_settings", "list_lineshapePW_definitions", "global_photos_flag"]
+
+
+def full_snapshot(p, deep=None, with_print=True):
+    """Every public answer of a parsed DecFileParser as one JSON-able value.  `deep`: mothers whose full
+    chains / expansions are included as well (None = all mothers with a small unfolding)."""
+    import json
+    snap = {}
+    mothers = p.list_decay_mother_names()
+    snap["mothers"] = mothers
+    snap["n"] = p.number_of_decays
+    for q in GLOBAL_QUERIES:
+        try:
+            snap[q] = getattr(p, q)()
+        except Exception as e:  # noqa: BLE001
+            snap[q] = "raised " + type(e).__name__
+    tabs = {}
+    for m in dict.fromkeys(mothers):
+        try:
+            modes = p.list_decay_modes(m)
+            alld = sorted({d for mode in modes for d in mode})
+            entry = [modes, p.build_decay_chains(m, stable_particles=alld)]
+            if with_print:
+                buf = io.StringIO()
+                with redirect_stdout(buf):
+                    p.print_decay_modes(m)
+                entry.append(buf.getvalue())
+            tabs[m] = entry
+        except Exception as e:  # noqa: BLE001
+            tabs[m] = "raised " + type(e).__name__
+    snap["tables"] = tabs
+    if deep is None:
+        from .decquery import unfold_size
+        ot = [{"m": m, "lines": [{"ds": mode} for mode in (tabs[m][0] if isinstance(tabs[m], list) else [])]}
+              for m in tabs]
+        deep = []
+        for m in tabs:
+            n, np_ = unfold_size(ot, m, cap=10**5)
+            if n is not None and np_ is not None and n <= 300 and np_ <= 300:
+                deep.append(m)
+        deep = deep[:60]
+    snap["deep_mothers"] = list(deep)
+    dd = {}
+    for m in deep:
+        try:
+            dd[m] = [p.build_decay_chains(m), p.expand_decay_modes(m)]
+        except Exception as e:  # noqa: BLE001
+            dd[m] = "raised " + type(e).__name__
+    snap["deep"] = dd
+    return json.loads(json.dumps(snap, default=repr))
